@@ -12,7 +12,7 @@ for p in $(./bin/factgen -prop list); do
 done
 python3 tools/mkgomod.py /repo harness/go.mod
 cp /repo/go.sum harness/go.sum
-props=$(ls checks | sed 's/\.json$//')
+props=$(ls checks | grep -v findings | sed "s/\.json$//")
 for p in $props; do
   pl=$(echo $p | tr A-Z a-z)
   (cd harness && go build -tags verif -o ../bin/fvh-$pl ./$pl) || echo "setup: harness build for $p failed (reported by its check)" >&2
